@@ -344,6 +344,13 @@ class NpShim:
         return self.array(obj, dtype=dtype, **k)
 
     def copy(self, a, **k):
+        # a copy may later be indexed / assigned with symbolic values:
+        # hand out an object array (SArr) so that this stays possible
+        if isinstance(a, _np.ndarray) and not isinstance(a, SArr) \
+                and a.dtype.kind in 'biuf':
+            r = a.astype(object).view(SArr)
+            r.decl = a.dtype if a.dtype.kind in 'iu' else None
+            return r
         return _np.copy(a, subok=True)
 
     def arange(self, *a, **k):
@@ -469,21 +476,13 @@ class NpShim:
             out[idx] = f(a[idx], b[idx])
         return out.view(SArr) if shape else out[()]
 
-    def maximum(self, a, b, **k):
-        if _has_sym(a) or _has_sym(b):
-            def f(x, y):
-                x_, y_ = core._coerce(x, y)
-                return core._wrap(z3.If(x_ >= y_, x_, y_))
-            return self._binb(a, b, f)
-        return _np.maximum(a, b, **k)
+    @property
+    def maximum(self):
+        return _MAXIMUM
 
-    def minimum(self, a, b, **k):
-        if _has_sym(a) or _has_sym(b):
-            def f(x, y):
-                x_, y_ = core._coerce(x, y)
-                return core._wrap(z3.If(x_ <= y_, x_, y_))
-            return self._binb(a, b, f)
-        return _np.minimum(a, b, **k)
+    @property
+    def minimum(self):
+        return _MINIMUM
 
     def any(self, a, *args, **k):
         return _np.any(a, *args, **k)
@@ -507,6 +506,57 @@ class NpShim:
                     return False
             return True
         return _np.array_equal(a, b, **k)
+
+
+class _MinMax:
+    """np.maximum / np.minimum on symbolic operands: If-terms, no fork"""
+
+    def __init__(self, real, ge):
+        self.real, self.ge = real, ge
+
+    def _pick(self, x, y):
+        if isinstance(x, Sym) or isinstance(y, Sym):
+            x_, y_ = core._coerce(x, y)
+            c = (x_ >= y_) if self.ge else (x_ <= y_)
+            return core._wrap(z3.If(c, x_, y_))
+        return self.real(x, y)
+
+    def __call__(self, a, b, **k):
+        if _has_sym(a) or _has_sym(b):
+            a = _np.asarray(a, dtype=object)
+            b = _np.asarray(b, dtype=object)
+            shape = _np.broadcast_shapes(a.shape, b.shape)
+            a = _np.broadcast_to(a, shape)
+            b = _np.broadcast_to(b, shape)
+            out = _np.empty(shape, dtype=object)
+            for idx in _np.ndindex(shape):
+                out[idx] = self._pick(a[idx], b[idx])
+            return out.view(SArr) if shape else out[()]
+        return self.real(a, b, **k)
+
+    def accumulate(self, a, axis=0, **k):
+        if _has_sym(a):
+            a = _np.asarray(a, dtype=object)
+            if a.ndim != 1:
+                raise ShimGap('accumulate on nd symbolic array')
+            out = _np.empty(a.shape, dtype=object)
+            for i in range(len(a)):
+                out[i] = a[i] if i == 0 else self._pick(a[i], out[i - 1])
+            return out.view(SArr)
+        return self.real.accumulate(a, axis=axis, **k)
+
+    def reduce(self, a, axis=0, **k):
+        if _has_sym(a):
+            acc = self.accumulate(_np.asarray(a, dtype=object).ravel())
+            return acc[-1]
+        return self.real.reduce(a, axis=axis, **k)
+
+    def __getattr__(self, n):
+        return getattr(self.real, n)
+
+
+_MAXIMUM = _MinMax(_np.maximum, True)
+_MINIMUM = _MinMax(_np.minimum, False)
 
 
 def max_(*a, **k):
